@@ -115,27 +115,22 @@ partial def hasFsb0 (f : Field) : Bool :=
   | .union fs _ => fs.toList.any (fun x => hasFsb0 x.2)
   | _ => false
 
-/-- like `culprit`, and says when the failing node sits above a zero-width binary column (whose array cannot carry
-its length: known finding) -/
-partial def culpritSig (f : Field) (a : Arr) : String :=
-  let rec go (f : Field) (a : Arr) : Field :=
-    match f.dataType, a with
-    | .struct fs, .struct _ _ cols =>
-      match (fs.toList.zip cols.toList).find? (fun (cf, (_, ca)) => !WF cf ca) with
-      | some (cf, (_, ca)) => go cf ca
-      | none => f
-    | .list c, .list _ _ _ _ el | .largeList c, .list _ _ _ _ el | .fixedSizeList c _, .fixedSizeList _ _ _ _ el =>
-      if !WF c el then go c el else f
-    | .map (.mk _ (.struct (.cons kf (.cons vf _))) _ _) _, .map _ _ _ ks vs =>
-      if !WF kf ks then go kf ks else if !WF vf vs then go vf vs else f
-    | .union fs _, .union _ _ cols =>
-      match (fs.toList.zip cols.toList).find? (fun ((_, cf), (_, _, ca)) => !WF cf ca) with
-      | some ((_, cf), (_, _, ca)) => go cf ca
-      | none => f
-    | _, _ => f
-  let c := go f a
-  let own := dtParam c.dataType
-  if own != "FixedSizeBinary(0)" && hasFsb0 c then own ++ "~FixedSizeBinary(0)" else own
+/-- the deepest sub-array that is not `WF` for its field, with that field -/
+partial def culpritNode (f : Field) (a : Arr) : Field × Arr :=
+  match f.dataType, a with
+  | .struct fs, .struct _ _ cols =>
+    match (fs.toList.zip cols.toList).find? (fun (cf, (_, ca)) => !WF cf ca) with
+    | some (cf, (_, ca)) => culpritNode cf ca
+    | none => (f, a)
+  | .list c, .list _ _ _ _ el | .largeList c, .list _ _ _ _ el | .fixedSizeList c _, .fixedSizeList _ _ _ _ el =>
+    if !WF c el then culpritNode c el else (f, a)
+  | .map (.mk _ (.struct (.cons kf (.cons vf _))) _ _) _, .map _ _ _ ks vs =>
+    if !WF kf ks then culpritNode kf ks else if !WF vf vs then culpritNode vf vs else (f, a)
+  | .union fs _, .union _ _ cols =>
+    match (fs.toList.zip cols.toList).find? (fun ((_, cf), (_, _, ca)) => !WF cf ca) with
+    | some ((_, cf), (_, _, ca)) => culpritNode cf ca
+    | none => (f, a)
+  | _, _ => (f, a)
 
 /-! ### C03: type equality and the arrow / arrow2 oracle -/
 
@@ -171,6 +166,20 @@ partial def fieldDiffT (parent : String) (f g : Field) : Option String :=
   else if f.metadata != g.metadata then some s!"{parent}/child-metadata"
   else typeDiff f.dataType g.dataType
 end
+
+/-- signature of a column that is not `WF`: the deepest failing node; when that node is structurally valid (`WFS`) and
+only its data type differs from the declared one, the ASPECT of the difference (`type/Map/entries-metadata`, …); else the
+node's data type with its size parameter, and whether it sits above a zero-width binary column (whose array cannot carry
+its length: known finding) -/
+def culpritSig (f : Field) (a : Arr) (anyFsb0 : Bool := false) : String :=
+  let (c, ca) := culpritNode f a
+  if WFS c ca && typeOf ca != c.dataType then
+    -- (a schema that ALSO holds a zero-width binary column keeps that marker: the case fails C01 / C03 for that known
+    -- reason as well, whichever column is looked at first)
+    s!"type/{(typeDiff c.dataType (typeOf ca)).getD "-"}{if anyFsb0 then "~FixedSizeBinary(0)" else ""}"
+  else
+    let own := dtParam c.dataType
+    if own != "FixedSizeBinary(0)" && hasFsb0 c then own ++ "~FixedSizeBinary(0)" else own
 
 /-- data types a back end does not offer (marrow 0.2.3 conversions) — the SAME fixed table as `Backend.dtGap` (C19) -/
 def gapOf (backend : String) : DataType → Option String
@@ -374,11 +383,7 @@ def handle (j : Json) : Except String Verdict := do
     let badCol := firstNotWf.getD 0
     -- a column that is structurally valid and of the right length but of ANOTHER data type: name the aspect
     let cul := match fields[badCol]?, iarrs[badCol]? with
-      | some f, some a =>
-        if firstNotWf.isNone then "-"
-        else if WFS f a && (decodeAll a).length == rows.length then
-          s!"type/{(typeDiff f.dataType (typeOf a)).getD "-"}"
-        else culpritSig f a
+      | some f, some a => if firstNotWf.isSome then culpritSig f a (fields.any hasFsb0) else "-"
       | _, _ => "-"
     let sig :=
       if !wfAll then s!"build/C03/{cul}"
